@@ -545,6 +545,77 @@ def check_generate_ints(chk, prog):
              n, bad, floor=1)
 
 
+def check_fd_pairing(chk, prog, model):
+    """the tools' helper that pipes verbose output through a command (write_json): every descriptor obtained from pipe() is closed on every
+    path of the parent before the function returns (one leaked descriptor per token makes pipe() fail after some hundred tokens and the
+    tool exit non-zero although every token verified)"""
+    import memrules
+    from model import own_alloc, own_free
+    n = 0
+    bad = 0
+    for unit in ('tools/jwt-verify.c', 'tools/jwt-generate.c'):
+        u = prog.unit(unit)
+        if 'write_json' not in u.funcs:
+            continue
+
+        class R(memrules.MemRule):
+            alloc_may_fail = False
+            lib_alloc_may_fail = False
+            check_null = False
+            check_uninit = False
+
+        def h_pipe(it, st, args, node):
+            s1 = st.clone()
+            if isinstance(args[0], Ref):
+                for i in (0, 1):
+                    o = s1.newobj('fd@pipe[%d]' % i)
+                    base = args[0].path[:-3] if args[0].path.endswith('[0]') else args[0].path
+                    it.store(s1, args[0].loc, '%s[%d]' % (base, i), Ref(o))
+                    own_alloc(it, s1, 'fd', Ref(o), node, 'pipe')
+            return [(s1, Int(0)), (st, Int(-1))]
+
+        def h_close(it, st, args, node):
+            if isinstance(args[0], Ref):
+                own_free(it, st, 'fd', args[0], node, 'close')
+            return [(st, Int(0))]
+
+        def h_fork(it, st, args, node):
+            s1, s2 = st.clone(), st.clone()
+            pid = Term(('pid',))
+            s2.cons[pid.k] = (('>=', 1),)
+            return [(s1, Int(0)), (s2, pid), (st, Int(-1))]
+        end = lambda it, st, a, nd: []
+        zero = lambda it, st, a, nd: [(st, Int(0))]
+        hooks = {'pipe': h_pipe, 'close': h_close, 'fork': h_fork, 'exit': end, '_exit': end, 'execvp': end, 'execlp': end, 'execv': end,
+                 'perror': zero, 'fprintf': zero, 'dup2': zero, 'waitpid': zero, 'write': lambda it, st, a, nd: [(st, Term(('nwritten',)))],
+                 'strlen': lambda it, st, a, nd: [(st, Term(('len',)))]}
+        rule = R()
+        it = Interp(prog, unit, model=model, rule=rule, hooks=hooks)
+        st = State()
+        st.mem[(('glob', 'pipe_cmd'), '')] = Term(('pipe_cmd',), ptr=True)
+        st.ptrfact[('pipe_cmd',)] = 'nonnull'
+        st.mem[(('glob', 'json_fp'), '')] = Term(('json_fp',), ptr=True)
+        st.ptrfact[('json_fp',)] = 'nonnull'
+        res = it.run('write_json', [Str('t\0'), Term(('str',), ptr=True)], st)
+        opened = 0
+        for s_, rv in res:
+            n += 1
+            if any(e[0] == 'alloc' and e[1] == 'fd' for e in s_.trace):
+                opened += 1
+            for k, key, msg, loc in rule.at_exit(it, s_, rv):
+                if k == 'leak':
+                    bad += 1
+                    chk.add(Finding('C20.fd-pairing', 'tools/jwt-util.h', 'write_json', 'descriptor-leak',
+                                    'a descriptor obtained from pipe() is still open when write_json returns on some path (%s)' % msg, line=loc[1]))
+                    break
+        if not opened:
+            raise AnalysisBroken('write_json (%s): no path opens a pipe' % unit)
+        break
+    if not n:
+        raise AnalysisBroken('write_json not found in the tools')
+    chk.rule('C20.fd-pairing', 'write_json: every pipe() descriptor is closed on every returning path of the parent', n, bad, floor=2)
+
+
 def check_jwk2key(chk, prog, model):
     unit = 'tools/jwk2key.c'
     prog.func(unit, 'write_key_file')
@@ -619,6 +690,7 @@ def run(chk, prog, tier):
     chk.guard('jwk2key provenance', check_jwk2key, chk, prog, model)
     chk.guard('key2jwk raw keys', check_oct_export, chk, prog, model)
     chk.guard('jwt-generate integers', check_generate_ints, chk, prog)
+    chk.guard('descriptor pairing', check_fd_pairing, chk, prog, model)
     chk.assumptions += ['behaviour of the built binaries (exit codes observed, tokens accepted, files written) is process-level and NOT decided']
     return chk.finish(
         'Structural clauses for the four tools.',
